@@ -567,34 +567,71 @@ def rule_instances(E, rng, quick):
     return out
 
 
+RULES2 = ["r3_slc_push", "r4_tst_const", "r4_tst_same"]
+
+
+def rule2_instances(E, rng, quick):
+    """slc.simplify / tst.simplify on raw nodes over register operands: (rule index in rules2 or None, thunk)"""
+    widths = [2, 3, 7, 8, 16, 31, 32, 64, 128] if quick else [2, 3, 4, 5, 7, 8, 9, 15, 16, 17, 31, 32, 33, 63, 64, 65, 127, 128]
+    out = []
+    R = lambda nm, n: E.reg(nm, n)
+    for n in widths:
+        a, b = ("a", n), ("b", n)
+        spans = {(0, 1), (0, n - 1), (1, n - 1), (n - 1, 1), (0, n // 2), (n // 2, n - n // 2)}
+        for _ in range(4):
+            p = rng.randrange(0, n)
+            spans.add((p, rng.randrange(1, n - p + 1)))
+        spans = sorted(x for x in spans if x[1] >= 1 and x[0] + x[1] <= n and not (x[0] == 0 and x[1] == n))
+        for (p, ln) in spans:
+            for o in ("&", "|", "^"):
+                out.append((0, lambda a=a, b=b, o=o, p=p, ln=ln: E.slc(E.op(o, R(*a), R(*b)), p, ln)))
+            out.append((0, lambda a=a, p=p, ln=ln: E.slc(E.uop("~", R(*a)), p, ln)))
+            for o in ("+", "-"):
+                out.append((0 if p == 0 else None, lambda a=a, b=b, o=o, p=p, ln=ln: E.slc(E.op(o, R(*a), R(*b)), p, ln)))
+            out.append((0 if p == 0 else None, lambda a=a, p=p, ln=ln: E.slc(E.uop("-", R(*a)), p, ln)))
+            # a slice of a product, of a shift by a register, of a comparison-free arithmetic node at pos > 0: no rule
+            out.append((None, lambda a=a, b=b, p=p, ln=ln: E.slc(E.op("*", R(*a), R(*b)), p, ln)))
+            out.append((None, lambda a=a, b=b, p=p, ln=ln: E.slc(E.op("<<", R(*a), R(*b)), p, ln)))
+        for bit in (0, 1):
+            out.append((1, lambda a=a, b=b, bit=bit: E.tst(E.cst(bit, 1), R(*a), R(*b))))
+        out.append((2, lambda a=a: E.tst(R("c", 1), R(*a), R(*a))))
+        out.append((None, lambda a=a, b=b: E.tst(R("c", 1), R(*a), R(*b))))
+    return out
+
+
 def rules_part(run, cx, quick):
     E = cx.E
     rng = random.Random(run.seed * 7919 + 17)
     cx.conf.Cas.complexity = 0
     cases, norule, descr = [], [], []
+    cases2, norule2 = [], []
     skipped = 0
-    for k, thunk in rule_instances(E, rng, quick):
+    inst = [(1, k, t) for k, t in rule_instances(E, rng, quick)] + [(2, k, t) for k, t in rule2_instances(E, rng, quick)]
+    for tab, k, thunk in inst:
+        names_ = RULES if tab == 1 else RULES2
         try:
             node = thunk()
             before = X.dump(node)
-            after = X.dump(E.eqn1_helpers(node) if node.op.unary else E.eqn2_helpers(node))
+            if tab == 1:
+                after = X.dump(E.eqn1_helpers(node) if node.op.unary else E.eqn2_helpers(node))
+            else:
+                after = X.dump(node.simplify())
             names = {}
             tb, ta = coq_exp(before, names), coq_exp(after, names)
         except Unsupported:
             skipped += 1
             continue
         except Exception as e:
-            run.violation("rule-raised|%s" % (RULES[k] if k is not None else "no-rule"), "a rewrite-rule function raised %s on a raw node" % type(e).__name__,
-                          {"rule": RULES[k] if k is not None else None, "error": repr(e)[:200], "traceback": traceback.format_exc()[-1500:]})
+            run.violation("rule-raised|%s" % (names_[k] if k is not None else "no-rule"), "a rewrite-rule function raised %s on a raw node" % type(e).__name__,
+                          {"rule": names_[k] if k is not None else None, "error": repr(e)[:200], "traceback": traceback.format_exc()[-1500:]})
             continue
-        run.count(("rule", k, tb))
-        run.hist("rule_cases", RULES[k] if k is not None else "no-rule-fires", 1)
+        run.count(("rule", tab, k, tb))
+        run.hist("rule_cases", names_[k] if k is not None else "no-rule-fires", 1)
         if k is None:
-            norule.append("(%s, %s)" % (tb, ta))
-            descr.append((None, before, after))
+            (norule if tab == 1 else norule2).append("(%s, %s)" % (tb, ta))
         else:
-            cases.append("(%d%%nat, %s, %s)" % (k, tb, ta))
-    hdr = "From Coq Require Import ZArith List.\nImport ListNotations.\nRequire Import Amoco.Exp.Sem Amoco.Exp.Rules.\nOpen Scope Z_scope.\n"
+            (cases if tab == 1 else cases2).append("(%d%%nat, %s, %s)" % (k, tb, ta))
+    hdr = "From Coq Require Import ZArith List.\nImport ListNotations.\nRequire Import Amoco.Exp.Sem Amoco.Exp.Rules Amoco.Exp.Rules2.\nOpen Scope Z_scope.\n"
     texts = []
     shards = [cases[i:i + 400] for i in range(0, len(cases), 400)]
     for i, sh in enumerate(shards):
@@ -602,9 +639,16 @@ def rules_part(run, cx, quick):
     nshards = [norule[i:i + 400] for i in range(0, len(norule), 400)]
     for i, sh in enumerate(nshards):
         texts.append(("norule_%03d" % i, hdr + "Definition cases : list (exp * exp) := [\n%s\n].\nEval vm_compute in (bad_from check_norule 0 cases).\n" % ";\n".join(sh)))
+    shards2 = [cases2[i:i + 400] for i in range(0, len(cases2), 400)]
+    for i, sh in enumerate(shards2):
+        texts.append(("rule2_%03d" % i, hdr + "Definition cases : list rule_case := [\n%s\n].\nEval vm_compute in (bad_from check_rule2 0 cases).\n" % ";\n".join(sh)))
+    nshards2 = [norule2[i:i + 400] for i in range(0, len(norule2), 400)]
+    for i, sh in enumerate(nshards2):
+        texts.append(("norule2_%03d" % i, hdr + "Definition cases : list (exp * exp) := [\n%s\n].\nEval vm_compute in (bad_from check_norule2 0 cases).\n" % ";\n".join(sh)))
     res = common.coq_eval_many(run.work / "rules", texts)
     n_ok = 0
-    for nm, sh in [("rule_%03d" % i, sh) for i, sh in enumerate(shards)] + [("norule_%03d" % i, sh) for i, sh in enumerate(nshards)]:
+    for nm, sh in ([("rule_%03d" % i, sh) for i, sh in enumerate(shards)] + [("norule_%03d" % i, sh) for i, sh in enumerate(nshards)]
+                   + [("rule2_%03d" % i, sh) for i, sh in enumerate(shards2)] + [("norule2_%03d" % i, sh) for i, sh in enumerate(nshards2)]):
         rc, out = res[nm]
         lists = common.parse_nat_list(out)
         if rc != 0 or len(lists) != 1:
@@ -613,7 +657,7 @@ def rules_part(run, cx, quick):
         n_ok += len(sh)
         for idx in lists[0][:3]:
             run.violation("rule-model-impl-correspondence|" + nm.split("_")[0],
-                          "a rewrite rule of eqn1_helpers/eqn2_helpers returns a node that differs from the Gallina model of the rule (Amoco.Exp.Rules), "
+                          "a rewrite rule of eqn1_helpers/eqn2_helpers/slc.simplify/tst.simplify returns a node that differs from the Gallina model of the rule (Amoco.Exp.Rules, Rules2), "
                           "so C01_simplifier_rules_sound no longer speaks about the code",
                           {"theorem_or_correspondence": "Amoco.Exp.Rules.check_rule / check_norule", "case(rule index, node, returned node)": sh[idx][:1500]}, found_input=False)
     run.cov["rule_cases_evaluated_in_coq"] = n_ok
